@@ -342,6 +342,9 @@ def _sc_un(tr, k, x, arg=None):
         return N(abs(x.v), x.e, x.s)
     if k in ('floor', 'ceil'):
         fl = math.floor(x.v)
+        if abs(x.v) >= 2 ** 53:
+            # every double of this size is an integer: floor / ceiling return the (rounded) argument itself
+            return N(F(fl if k == 'floor' else math.ceil(x.v)), x.e, False)
         if x.e > 0 or not x.s:
             dist = min(x.v - fl, fl + 1 - x.v) if x.v != fl else 0
             if dist <= 4 * x.e + 1e-9:
@@ -973,9 +976,9 @@ def prepare(case: Case):
     case.dead_error = tr.dead_error
     if PF27_LISTED[0] and (tr.reversed_sum or closed_sum_inspected(case.tree, tuple(case.extra.get('symbolic', ())))):
         case.skip = 'known-PF-C12e'
-    elif case.floats and (tr.fragile or tr.big):
+    elif case.floats and (tr.fragile or (tr.big and not case.extra.get('huge'))):
         case.skip = 'fragile' if tr.fragile else 'range'
-    elif tr.scale > 1e15:
+    elif tr.scale > 1e15 and not case.extra.get('huge'):
         case.skip = 'range'
     if case.floats and err > 0:
         case.tol = F(max(1000 * err, 1e-12 * tr.scale))
@@ -1717,6 +1720,124 @@ def fam_subst(ctx, n):
     return run_cases(ctx, cases)
 
 
+def fam_shared_index(ctx, n):
+    """a non-atomic sub-expression in the summation index occurs inside a Sum *and* again outside it (or in a second
+    Sum) while the index name is also bound in the scope: outside, the name means the scope's value, inside the
+    summation index (shadowing, as in the model's `eval`).  Any transformation of the formula that shares the repeated
+    sub-expression across the Sum boundary (common sub-expression elimination) changes the value."""
+    rng = ctx.fork('shared-index')
+    cases = []
+    for k in range(n):
+        cfg = Cfg(numbers=rng.choice(['dyadic', 'int']), bindex=False, sums=False, sum_index_in_index=True)
+        i = 'i'
+        shape = rng.random()
+        if shape < 0.3:
+            sub = ('pow', ('index', 'v', var(i)), 2) if rng.random() < 0.5 else ('mul', ('index', 'v', var(i)), gen_leaf(rng, cfg))
+            lo, hi = lit(0), lit(rng.choice([1, 2, 3]))
+        else:
+            sub = rng.choice([('pow', var(i), 2), ('mul', var(i), gen_leaf(rng, cfg)), ('add', var(i), gen_lit(rng, cfg)),
+                              ('mul', ('add', var(i), lit(1)), var(i)), ('sub', gen_leaf(rng, cfg), ('mul', lit(2), var(i)))])
+            lo = lit(rng.choice([0, 1, -1]))
+            hi = ('add', lo, lit(rng.choice([1, 2, 3]))) if rng.random() < 0.6 else var('n')
+        body = sub if rng.random() < 0.4 else (rng.choice(['add', 'mul', 'sub']), sub, gen_num(rng, cfg, rng.randint(0, 1), (i,)))
+        the_sum = ('sum', i, lo, hi, body)
+        r = rng.random()
+        if r < 0.6:
+            outer = sub if rng.random() < 0.5 else (rng.choice(['add', 'mul']), sub, gen_leaf(rng, cfg))
+            tree = (rng.choice(['add', 'sub', 'mul', 'div']), outer, the_sum)
+            if rng.random() < 0.5:
+                tree = (tree[0], tree[2], tree[1])
+        elif r < 0.8:
+            tree = (rng.choice(['add', 'sub', 'mul']), the_sum, ('sum', i, lit(rng.choice([0, 1])), lit(rng.choice([2, 3])), ('add', sub, gen_leaf(rng, cfg))))
+        else:
+            tree = ('add', ('mul', sub, sub), ('mul', the_sum, gen_leaf(rng, cfg)))
+        if rng.random() < 0.3:
+            tree = (rng.choice(['add', 'mul', 'max']), tree, gen_num(rng, cfg, rng.randint(0, 2)))
+        env = gen_env(rng, tree, cfg, rng.choice([('int', 'float'), ('int',), ('float', 'int', 'npint')]))
+        if i in env:
+            env[i] = (env[i][0], F(rng.randrange(0, cfg.array_len if shape < 0.3 else 4)))
+        if 'n' in env:
+            env['n'] = (env['n'][0], F(rng.randrange(0, 4)))
+        how = rng.random()
+        if how < 0.6:
+            cases.append(mk_eval(tree, env, {'mode': 'numeric', 'build': rng.choice(['string', 'string', 'sympy']), 'family': 'shared-index'}))
+        elif how < 0.75:
+            ok = all(kd in ('int', 'npint') for kd, v in env.values() if not isinstance(v, list)) and cfg.numbers == 'int'
+            cases.append(mk_eval(tree, env, {'mode': 'exact' if ok else 'numeric', 'build': 'string', 'family': 'shared-index'}))
+        elif how < 0.9:
+            second = gen_leaf(rng, cfg)
+            for x, kv in gen_env(rng, second, cfg, ('int', 'float')).items():
+                env.setdefault(x, kv)
+            c = mk_vector([tree, second], env, {'how': 'eval'})
+            c.family = 'shared-index'
+            cases.append(c)
+        else:
+            names = [x for x in env if not isinstance(env[x][1], list)]
+            first = rng.sample(names, rng.randint(1, len(names))) if names else []
+            rest = [x for x in env if x not in first]
+            c = mk_partial(tree, env, {'groups': [first, rest], 'final': 'numeric'})
+            c.family = 'shared-index'
+            cases.append(c)
+        ctx.count('shared-index:' + ('indexed-body' if shape < 0.3 else 'index-polynomial'))
+    return run_cases(ctx, cases, rebuild=lambda t, e: mk_eval(t, e, {'mode': 'numeric', 'build': 'string', 'family': 'shared-index'}))
+
+
+HUGE = [F(2) ** 63, -F(2) ** 63, F(2) ** 63 + 2048, -(F(2) ** 63) - 2048, F(2) ** 62, F(10) ** 19, -F(10) ** 19, F(float(1e300)),
+        -F(float(1e300)), F(2) ** 53 + 2, F(2) ** 64, F(3 * 2 ** 62)]
+
+
+def fam_huge(ctx, n):
+    """floor / ceiling of numbers beyond the int64 range, for single numbers and for arrays (the array branch has to give
+    up on the int64 cast): all values are exactly representable doubles, so the Lean value is exact; the
+    implementation must return the value of the formula (or refuse), never a silently wrapped integer."""
+    rng = ctx.fork('huge')
+    cases = []
+    for k in range(n):
+        f1, f2 = rng.choice(['floor', 'ceil']), rng.choice(['floor', 'ceil'])
+        t = var('t')
+        arg = rng.choice([t, ('mul', var('a'), t), ('div', t, lit(2)), ('add', t, lit(F(1, 2), 'dec')), ('neg', t), ('abs', t),
+                          ('sub', t, var('b'))])
+        tree = rng.choice([(f1, arg), ('neg', (f1, arg)), ('sub', (f1, arg), (f2, t)), ('max', (f1, arg), var('b')),
+                           ('add', (f1, arg), lit(1)), ('div', (f1, arg), lit(2)), ('mul', lit(F(1, 2), 'dec'), (f1, arg))])
+        L = rng.choice([1, 2, 3, 5])
+        shape = rng.random()
+        if shape < 0.75:
+            vals = [rng.choice(HUGE) if rng.random() < 0.6 else F(rng.randrange(-40, 41), rng.choice([1, 2, 4])) for _ in range(L)]
+            if all(abs(v) < 2 ** 62 for v in vals):
+                vals[rng.randrange(L)] = rng.choice(HUGE)
+            a = F(rng.choice([1, 2, -1])) if rng.random() < 0.8 else F(1, 2)
+            if rng.random() < 0.2:           # a huge factor times small sample times, as floor(a*t) with a = 1e19
+                a, vals = rng.choice([F(10) ** 19, F(2) ** 63, F(float(1e300))]), [F(rng.randrange(1, 5)) for _ in range(L)]
+            env = {'t': ('arrf', vals)}
+        else:
+            a = F(rng.choice([1, 2, -1]))
+            env = {'t': (rng.choice(['float', 'npfloat']), rng.choice(HUGE))}
+        if 'a' in tree_vars(tree):
+            env['a'] = ('float', a)
+        if 'b' in tree_vars(tree):
+            env['b'] = (rng.choice(['float', 'int']), F(rng.randrange(-9, 10)))
+        env = normalise_env({x: env[x] for x in tree_vars(tree)})
+        # integer arithmetic on top of floor/ceiling is only generated when the floor/ceiling array itself cannot be an
+        # int64 array (some element outside the range): otherwise numpy's int64 arithmetic may wrap (open finding PF-C12g)
+        if tree[0] in ('neg', 'sub', 'add') and isinstance(env['t'][1], list):
+            def stays_float(sub):
+                tr = Track(True)
+                try:
+                    vals = plain(ref_eval(tr, sub, env_ref(tr, env)))
+                except RefError:
+                    return False
+                # (judged on the rounded double: -2**63 - 6 is the double -2**63, which fits)
+                return any(v >= 2 ** 63 or v < -(2 ** 63) - 1024 for v in vals)
+            subs = [x for x in tree[1:] if isinstance(x, tuple) and x[0] in ('floor', 'ceil')]
+            if not all(stays_float(x) for x in subs):
+                tree = subs[0]
+                env = {x: env[x] for x in tree_vars(tree)}
+        # (a refusal is an accepted answer: numpy cannot take python ints beyond int64, e.g. in Max(ceiling(t), b))
+        cases.append(mk_eval(tree, env, {'mode': 'numeric', 'build': 'string', 'family': 'huge', 'huge': True, 'lenient': True}))
+        ctx.count('huge:' + ('array' if shape < 0.75 else 'scalar'))
+    return run_cases(ctx, cases)      # (no shrinking: the formulas are small and shrinking could walk into the class of PF-C12g)
+
+
 SYMPY_KINDS = ('syint', 'syfloat', 'syrat')
 
 
@@ -2332,6 +2453,24 @@ def known_pf29(ctx):
         return
 
 
+def known_c12g(ctx):
+    """PF-C12g (open): the array branch of floor/ceiling returns an int64 array when every element fits; integer
+    arithmetic on it then wraps around silently (numpy int64), e.g. -ceiling(t) with t = [-2.0**63]."""
+    numpy, sympy, ES, EV, Expression, TimeType = _imports()
+    for kf in ctx.findings.for_property('C12'):
+        if kf.get('finding') != 'PF-C12g':
+            continue
+        w = kf['witness']
+        t = numpy.array([float(F(x)) for x in w['t']])
+        got = outcome(lambda: ES(w['expression']).evaluate_in_scope({'t': t}))
+        ctx.case('known-finding PF-C12g ' + w['expression'], nontrivial=False)
+        want = [F(x) for x in w['value']]
+        if got[0] == 'ok' and got[1] != want:
+            ctx.known_finding('PF-C12g', '%s with t = %s returns %s, the value is %s (int64 wrap-around after the array '
+                              'branch of floor/ceiling)' % (w['expression'], w['t'], _show(got[1]), _show(want)))
+        return
+
+
 def run(ctx: core.Ctx):
     ctx.rule = ('random formula trees over + - * / integer powers Min Max floor ceiling Abs Mod comparisons & | ~ Piecewise '
                 'indexing Broadcast Sum (depth <= 4 quick / 6 thorough), printed as qupulse strings (and built as sympy objects), '
@@ -2354,6 +2493,7 @@ def run(ctx: core.Ctx):
         ctx.corpus_replayed += 1
     known_pf27(ctx)
     known_pf29(ctx)
+    known_c12g(ctx)
     import os
     import sys
     import time
@@ -2365,6 +2505,8 @@ def run(ctx: core.Ctx):
             ('subst', lambda: fam_subst(ctx, ctx.n(150, 2500))),
             ('history', lambda: fam_history(ctx, ctx.n(150, 2500))),
             ('sympy-args', lambda: fam_sympy_args(ctx, ctx.n(250, 4000))),
+            ('shared-index', lambda: fam_shared_index(ctx, ctx.n(250, 4000))),
+            ('huge', lambda: fam_huge(ctx, ctx.n(200, 3000))),
             ('cached', lambda: fam_cached(ctx, ctx.n(100, 1500))),
             ('roundtrip', lambda: fam_roundtrip(ctx, ctx.n(300, 5000))),
             ('arith', lambda: fam_arith(ctx, ctx.n(300, 5000))),
